@@ -49,6 +49,7 @@ echo "demo on patched: exit $D1"
 cd /verif
 if [ -n "$(git -C /repo status --porcelain)" ]; then echo "/repo not clean, refusing"; exit 2; fi
 git -C /repo apply "$OUT/patch.diff" || { echo "patch does not apply to /repo"; exit 2; }
+rm -rf /var/tmp/evidence.keep; cp -r /verif/evidence /var/tmp/evidence.keep    # evidence/ must describe clean-tree runs
 RES=""
 for c in "$@"; do
   timeout 3000 bin/check "$c" > "$OUT/check.$c.log" 2>&1; rc=$?
@@ -57,4 +58,5 @@ for c in "$@"; do
   RES="$RES $c:$rc"
 done
 git -C /repo checkout -- . ; git -C /repo clean -fdq ; git -C /repo status --porcelain | head -3
+rm -rf /verif/evidence; mv /var/tmp/evidence.keep /verif/evidence
 echo "SUMMARY $ID demo_orig=$D0 build=$B tests=$T demo_patched=$D1 checks=$RES"
